@@ -125,6 +125,13 @@ func classifyMidi(c *mon.Ctx, b []byte) string {
 			name string
 			t    midi.Type
 		}{{"channel", midi.ChannelMsg}, {"syscommon", midi.SysCommonMsg}, {"realtime", midi.RealTimeMsg}, {"sysex", midi.SysExMsg}, {"unknown", midi.UnknownMsg}} {
+			// the two ways of asking agree: for one type, and for a list of two
+			if one, is := m.IsOneOf(x.t), m.Is(x.t); one != is {
+				c.Violation("isoneof-vs-is:midi", fmt.Sprintf("midi.Message % X: IsOneOf(%s) = %v but Is(%s) = %v", b, x.name, one, x.name, is), mon.Hex(b), is, one)
+			}
+			if two, is := m.IsOneOf(midi.ResetMsg, x.t), m.Is(midi.ResetMsg) || m.Is(x.t); two != is {
+				c.Violation("isoneof-vs-is:midi", fmt.Sprintf("midi.Message % X: IsOneOf(reset, %s) = %v but Is(reset) || Is(%s) = %v", b, x.name, two, x.name, is), mon.Hex(b), is, two)
+			}
 			if m.Is(x.t) {
 				n++
 				cat = x.name
@@ -203,6 +210,13 @@ func classifySMF(c *mon.Ctx, b []byte) string {
 			name string
 			t    midi.Type
 		}{{"channel", midi.ChannelMsg}, {"syscommon", midi.SysCommonMsg}, {"realtime", midi.RealTimeMsg}, {"sysex", midi.SysExMsg}, {"unknown", midi.UnknownMsg}, {"meta", smf.MetaMsg}} {
+			// the two ways of asking agree: for one type, and for a list of two
+			if one, is := m.IsOneOf(x.t), m.Is(x.t); one != is {
+				c.Violation("isoneof-vs-is:smf", fmt.Sprintf("smf.Message % X: IsOneOf(%s) = %v but Is(%s) = %v", b, x.name, one, x.name, is), mon.Hex(b), is, one)
+			}
+			if two, is := m.IsOneOf(midi.ResetMsg, x.t), m.Is(midi.ResetMsg) || m.Is(x.t); two != is {
+				c.Violation("isoneof-vs-is:smf", fmt.Sprintf("smf.Message % X: IsOneOf(reset, %s) = %v but Is(reset) || Is(%s) = %v", b, x.name, two, x.name, is), mon.Hex(b), is, two)
+			}
 			if m.Is(x.t) {
 				n++
 				cat = x.name
